@@ -217,11 +217,203 @@ def gen_scales(repo):
     out.append("end Mingus.Gen.Scales")
     return "\n".join(out) + "\n"
 
+# ---------------------------------------------------------------- chords
+class Sym:
+    """symbolic note expression relative to the root"""
+    def __init__(self, kind, arg=None):
+        self.kind, self.arg = kind, arg
+    def lean(self):
+        if self.kind == "root":
+            return "NoteExpr.root"
+        if self.kind == "ctor":
+            return "(NoteExpr.ctor %s)" % lstr(self.arg)
+        return "(NoteExpr.%s %s)" % (self.kind, self.arg.lean())
+
+def chain_rows(node, var):
+    """if var == 'a': B1 elif var == 'b': B2 ...  ->  [('a', B1), ('b', B2)]"""
+    rows = []
+    while True:
+        t = node.test
+        if not (isinstance(t, ast.Compare) and len(t.ops) == 1 and isinstance(t.ops[0], ast.Eq) and
+                getattr(t.left, "id", None) == var and isinstance(t.comparators[0], ast.Constant)):
+            raise Shape("chain test is not `%s == <const>`: %s" % (var, ast.unparse(t)))
+        rows.append((t.comparators[0].value, node.body))
+        if len(node.orelse) == 1 and isinstance(node.orelse[0], ast.If):
+            node = node.orelse[0]
+        elif not node.orelse:
+            return rows
+        else:
+            raise Shape("chain has an else branch")
+
+def add_result_arg(body):
+    if len(body) == 1 and isinstance(body[0], ast.Expr) and is_call(body[0].value, "add_result") and \
+       len(body[0].value.args) == 1 and isinstance(body[0].value.args[0], ast.Constant):
+        return body[0].value.args[0].value
+    raise Shape("branch is not a single add_result('<name>')")
+
+def uniq(rows, what):
+    keys = [r[:-1] for r in rows]
+    if len(set(keys)) != len(keys):
+        raise Shape("duplicate keys in %s" % what)
+    return rows
+
+def find_inner(fn, name):
+    for n in ast.walk(fn):
+        if isinstance(n, ast.FunctionDef) and n.name == name:
+            return n
+    raise Shape("%s has no %s" % (fn.name, name))
+
+def gen_chords(repo):
+    t = parse(repo, "mingus/core/chords.py")
+    fns = {n.name: n for n in t.body if isinstance(n, ast.FunctionDef)}
+
+    def ev(node, env, depth=0):
+        if depth > 20:
+            raise Shape("builder recursion too deep")
+        if isinstance(node, ast.Name):
+            if node.id in env:
+                return env[node.id]
+            raise Shape("unbound name %s" % node.id)
+        if isinstance(node, ast.List):
+            return [ev(e, env, depth) for e in node.elts]
+        if isinstance(node, ast.BinOp) and isinstance(node.op, ast.Add):
+            a, b = ev(node.left, env, depth), ev(node.right, env, depth)
+            if not (isinstance(a, list) and isinstance(b, list)):
+                raise Shape("+ on non-lists")
+            return a + b
+        if isinstance(node, ast.Subscript):
+            l = ev(node.value, env, depth)
+            return l[lit(node.slice)]
+        if isinstance(node, ast.Call):
+            f = node.func
+            if isinstance(f, ast.Attribute) and getattr(f.value, "id", None) == "intervals":
+                a = ev(node.args[0], env, depth)
+                if not (isinstance(a, Sym) and a.kind == "root") or len(node.args) != 1:
+                    raise Shape("interval constructor applied to something other than the root")
+                return Sym("ctor", f.attr)
+            if isinstance(f, ast.Attribute) and getattr(f.value, "id", None) == "notes" and f.attr in ("augment", "diminish"):
+                a = ev(node.args[0], env, depth)
+                if not isinstance(a, Sym):
+                    raise Shape("augment/diminish of a non-note")
+                return Sym("aug" if f.attr == "augment" else "dim", a)
+            if isinstance(f, ast.Name) and f.id in fns and len(node.args) == 1:
+                a = ev(node.args[0], env, depth)
+                if not (isinstance(a, Sym) and a.kind == "root"):
+                    raise Shape("builder called on something other than the root")
+                return run(fns[f.id], depth + 1)
+        raise Shape("unsupported expression %s" % ast.unparse(node))
+
+    def run(fn, depth=0):
+        params = [a.arg for a in fn.args.args]
+        if len(params) != 1:
+            raise Shape("%s is not a one-argument builder" % fn.name)
+        env = {params[0]: Sym("root")}
+        for st in body_wo_doc(fn):
+            if isinstance(st, ast.Return):
+                v = ev(st.value, env, depth)
+                if not isinstance(v, list):
+                    raise Shape("%s does not return a list" % fn.name)
+                return v
+            if isinstance(st, ast.Assign) and len(st.targets) == 1:
+                tg = st.targets[0]
+                if isinstance(tg, ast.Name):
+                    v = ev(st.value, env, depth)
+                    env[tg.id] = list(v) if isinstance(v, list) else v
+                    continue
+                if isinstance(tg, ast.Subscript) and isinstance(tg.value, ast.Name):
+                    env[tg.value.id][lit(tg.slice)] = ev(st.value, env, depth)
+                    continue
+            raise Shape("%s: unsupported statement %s" % (fn.name, ast.unparse(st)))
+        raise Shape("%s has no return" % fn.name)
+
+    cs = module_assign(t, "chord_shorthand")
+    table = []
+    builder_names = set()
+    for k, v in zip(cs.keys, cs.values):
+        key = lit(k)
+        if isinstance(v, ast.Name):
+            table.append((key, run(fns[v.id])))
+            builder_names.add(v.id)
+        elif isinstance(v, ast.Lambda):
+            env = {v.args.args[0].arg: Sym("root")}
+            table.append((key, ev(v.body, env)))
+        else:
+            raise Shape("chord_shorthand[%r] is neither a function nor a lambda" % key)
+    meaning = lit(module_assign(t, "chord_shorthand_meaning"))
+    # every one-argument module function whose parameter is `note` and that evaluates to a list is a named builder
+    named = []
+    for name, fn in fns.items():
+        if [a.arg for a in fn.args.args] == ["note"]:
+            try:
+                named.append((name, run(fn)))
+            except Shape:
+                if name in builder_names:
+                    raise
+    # function names and numeral aliases
+    ftab = []
+    def resolve(name, depth=0):
+        fn = fns[name]
+        b = body_wo_doc(fn)
+        if len(b) != 1 or not isinstance(b[0], ast.Return):
+            raise Shape("%s body" % name)
+        v = b[0].value
+        if isinstance(v, ast.Subscript) and is_call(v.value) and v.value.func.id in ("triads", "sevenths") and \
+           getattr(v.value.args[0], "id", None) == "key":
+            return (v.value.func.id == "sevenths", lit(v.slice))
+        if is_call(v) and isinstance(v.func, ast.Name) and v.func.id in fns and getattr(v.args[0], "id", None) == "key" and depth < 5:
+            return resolve(v.func.id, depth + 1)
+        raise Shape("%s is not a triads/sevenths row or an alias of one" % name)
+    for name, fn in fns.items():
+        if [a.arg for a in fn.args.args] == ["key"] and name not in ("triads", "sevenths"):
+            ftab.append((name,) + resolve(name))
+    # recogniser tables
+    tri = uniq([(k, add_result_arg(b)) for k, b in chain_rows(
+        [x for x in find_inner(fns["determine_triad"], "inversion_exhauster").body if isinstance(x, ast.If) and "intval" in ast.unparse(x.test)][0], "intval")], "determine_triad")
+    def nested(fname, loopvar, inner):
+        ie = find_inner(fns[fname], "inversion_exhauster")
+        loops = [x for x in ie.body if isinstance(x, ast.For)]
+        if len(loops) != 1:
+            raise Shape("%s: expected one for loop" % fname)
+        chains = [x for x in loops[0].body if isinstance(x, ast.If)]
+        if len(chains) != 1:
+            raise Shape("%s: expected one if-chain in the loop" % fname)
+        rows = []
+        for k, body in chain_rows(chains[0], loopvar):
+            for st in body:
+                if not isinstance(st, ast.If):
+                    raise Shape("%s: branch %r is not made of if statements" % (fname, k))
+                for k2, b2 in chain_rows(st, inner):
+                    rows.append((k, k2, add_result_arg(b2)))
+        return uniq(rows, fname)
+    sev = nested("determine_seventh", "triad", "intval3")
+    e5 = nested("determine_extended_chord5", "seventh", "intval4")
+    e6 = nested("determine_extended_chord6", "c", "intval5")
+    e7 = nested("determine_extended_chord7", "c", "intval6")
+    idesc = []
+    for k, body in chain_rows([x for x in fns["int_desc"].body if isinstance(x, ast.If)][0], "tries"):
+        if len(body) != 1 or not isinstance(body[0], ast.Return):
+            raise Shape("int_desc branch")
+        idesc.append((k, lit(body[0].value)))
+    out = ["import Mingus.Model.Chords", "namespace Mingus.Gen.Chords", "open Mingus.Chords"]
+    def exprs(l):
+        return llist(x.lean() for x in l)
+    out.append("def chordShorthand : List (List Char × List NoteExpr) := " + llist("(%s, %s)" % (lstr(k), exprs(v)) for k, v in table))
+    out.append("def namedBuilders : List (List Char × List NoteExpr) := " + llist("(%s, %s)" % (lstr(k), exprs(v)) for k, v in named))
+    out.append("def chordMeaning : List (List Char × List Char) := " + llist("(%s, %s)" % (lstr(k), lstr(v)) for k, v in meaning.items()))
+    out.append("def functionTable : List (List Char × Bool × Nat) := " + llist("(%s, %s, %d)" % (lstr(n), "true" if s7 else "false", i) for n, s7, i in ftab))
+    out.append("def triadTable : List (List Char × List Char) := " + llist("(%s, %s)" % (lstr(a), lstr(b)) for a, b in tri))
+    for nm, rows in (("seventhTable", sev), ("ext5Table", e5), ("ext6Table", e6), ("ext7Table", e7)):
+        out.append("def %s : List (List Char × List Char × List Char) := " % nm + llist("(%s, %s, %s)" % (lstr(a), lstr(b), lstr(c)) for a, b, c in rows))
+    out.append("def intDesc : List (Nat × List Char) := " + llist("(%d, %s)" % (k, lstr(v)) for k, v in idesc))
+    out.append("end Mingus.Gen.Chords")
+    return "\n".join(out) + "\n"
+
 GENERATORS = {
     "Notes": gen_notes,
     "Keys": gen_keys,
     "Intervals": gen_intervals,
     "Scales": gen_scales,
+    "Chords": gen_chords,
 }
 
 def main():
